@@ -2,9 +2,9 @@
 C20 — model of the authorisation path of kapacitor.
 
 Transcribed (snapshot ef0888e):
-* `auth/auth.go`: `NewUser` (grants: `path.Clean`ed resource ↦ OR-ed privilege mask, Go map = last write wins),
+* `auth/auth.go` (+ fix commits d662ebb, 06df506): `NewUser` (grants: `path.Clean`ed resource ↦ OR-ed privilege mask, OR-ed into the map),
   `User.AuthorizeAction` (early allow for `NoPrivileges`/admin, `path.IsAbs` test, `len(privileges) > 0`,
-  `path.Clean`, the `for` loop: lookup, `authorized := p&want != 0 || p == AllPrivileges`, STOP at the first
+  `path.Clean`, the `for` loop: lookup, `authorized := p&want != 0 || p&AllPrivileges != 0`, STOP at the first
   resource that carries a grant, stop at "/", `resource = path.Dir(resource)`), `APIResource`, `DatabaseResource`.
 * `services/httpd/handler.go`: `parseCredentials`, `authenticate` (incl. the `default:` clause that does not
   `return`), `requiredPrivilegeForHTTPMethod`, `authorizeRequest`, `authorize`/`authorizeForward`,
@@ -121,9 +121,21 @@ deriving Repr, DecidableEq
 
 def orMask (ps : List Nat) : Nat := ps.foldl (· ||| ·) 0
 
-/-- `auth.NewUser`: every granted resource is `Clean`ed, its privileges are OR-ed into one mask, and
-`ps[clean] = mask` overwrites an earlier entry with the same cleaned resource. -/
+/-- `ps[clean] |= mask` on a Go map (a missing key reads as 0). -/
+def mapOr (m : List (Path × Nat)) (k : Path) (v : Nat) : List (Path × Nat) :=
+  match m with
+  | [] => [(k, v)]
+  | e :: rest => if e.1 = k then (e.1, e.2 ||| v) :: rest else e :: mapOr rest k v
+
+/-- `auth.NewUser` (after fix 06df506): every granted resource is `Clean`ed, its privileges are OR-ed into
+one mask, and the mask is OR-ed into the entry of the cleaned resource. `grants` is the Go map in the order
+the `range` statement happens to visit it (theorem `newUser_order_independent`: the order does not matter). -/
 def newUser (admin : Bool) (grants : List (Path × List Nat)) : User :=
+  { admin := admin, privs := grants.foldl (fun m g => mapOr m (clean g.1) (orMask g.2)) [] }
+
+/-- `auth.NewUser` as it was at snapshot ef0888e: `ps[clean] = mask` — the entry visited last wins (kept for
+the counterexample theorem `newUserOld_order_dependent`). -/
+def newUserOld (admin : Bool) (grants : List (Path × List Nat)) : User :=
   { admin := admin, privs := grants.foldl (fun m g => (clean g.1, orMask g.2) :: m) [] }
 
 /-- What the auth service knows of a user: the arguments it passes to `auth.NewUser`. -/
@@ -147,8 +159,12 @@ inductive Decision where
   | diverge    -- the `for` loop did not end within the fuel (shown impossible)
 deriving Repr, DecidableEq, Inhabited
 
-/-- `authorized := p&action.Privilege != 0 || p == AllPrivileges`. -/
-def authorized (p want : Nat) : Bool := (p &&& want != 0) || p == allPriv
+/-- `authorized := p&action.Privilege != 0 || p&AllPrivileges != 0` (after fix d662ebb). -/
+def authorized (p want : Nat) : Bool := (p &&& want != 0) || (p &&& allPriv != 0)
+
+/-- … as it was at snapshot ef0888e: `p&action.Privilege != 0 || p == AllPrivileges` (kept for the
+counterexample theorem `authorizedOld_refuses_all_plus_other`). -/
+def authorizedOld (p want : Nat) : Bool := (p &&& want != 0) || p == allPriv
 
 /-- The `for { … }` loop of `AuthorizeAction`. -/
 def walk (privs : List (Path × Nat)) (want : Nat) : Nat → Path → Decision
